@@ -49,6 +49,10 @@ CHECKS['C13'] = dict(level='other',
    text='Deductive: over a ghost denotation of criteria objects, SearchCriteriaSet.matches is proved to be the conjunction, OrSearchCriteria the disjunction and InverseSearchCriteria the complement of their parts, and ALL, the flag keys, NEW, SMALLER/LARGER and the sequence-set/UID-set key (with * the highest number of the right kind) are proved to test what RFC 3501 says. Bounded: every supported key and its negation plus seeded programs to depth 2 are run as SEARCH and UID SEARCH on the real server against an independent evaluator, including equivalent programs and views with hidden expunges.',
    note='SearchCriteria.of dispatch, the SearchKey parser, the frozenset of top-level keys and every key that goes through email/re (header, envelope, text, sent date) are covered by the bounded run only.',
    ref='6 C13')
+CHECKS['C11'] = dict(level='other',
+   text='Deductive: do_create/do_delete/do_rename answer NO for INBOX without calling the backend; BaseSession turns KeyError/ValueError of the mailbox set into MailboxNotFound/MailboxConflict and lets nothing else escape; the dict MailboxSet add/delete/get/set_subscribed are proved against the map view (raise iff present/missing, refusals change nothing, exactly one name touched, INBOX in any case). Bounded: namespace programs on the real server against a plain model, and LIST/LSUB against an independent glob matcher, including inferiors, INBOX renames, wildcard, quote, newline and non-ASCII names.',
+   note='Pattern semantics (regex), ListTree.get_renames and rename_mailbox are bounded only; maildir backends are not run by this check; two RFC don\'t-care cases accept either answer.',
+   ref='6 C11')
 NOT_YET = {}
 def main():
     props = [json.loads(l) for l in open(os.path.join(HERE, 'properties.jsonl'))]
